@@ -314,4 +314,4 @@ func report() {
 	core.Extra("c03/roundtrip", "constructors_hit", len(ctorSeen))
 }
 
-func TestReplay(t *testing.T) { core.Replay(t, valueCheck, focusCheck) }
+func TestReplay(t *testing.T) { core.Replay(t, valueCheck, focusCheck, abiCheck) }
